@@ -2059,7 +2059,9 @@ class Parallel(Logger):
             self._original_iterator = iterator
             if hasattr(pre_dispatch, "endswith"):
                 pre_dispatch = eval_expr(pre_dispatch.replace("n_jobs", str(n_jobs)))
-            self._pre_dispatch_amount = pre_dispatch = int(pre_dispatch)
+            # At least one batch has to be pre-dispatched: the remaining items
+            # are only dispatched by the completion callbacks of earlier ones.
+            self._pre_dispatch_amount = pre_dispatch = max(1, int(pre_dispatch))
 
             # The main thread will consume the first pre_dispatch items and
             # the remaining items will later be lazily dispatched by async
